@@ -547,6 +547,10 @@ namespace vf
    template< typename Rule >
    using scr_control = typename tao::pegtl::state_control< lcontrol >::template type< Rule >;
 
+   // shuffle_states used directly, in a run WITHOUT any state: its unwind() (found by SFINAE on the state list) must still reach the wrapped control
+   template< typename Rule >
+   using rot0_control = tao::pegtl::rotate_states_right< lcontrol< Rule > >;
+
    // remove_first_state: the wrapped control must see the same hooks without the first state
    template< typename Rule >
    using rf_control = tao::pegtl::remove_first_state< lcontrol< Rule > >;
